@@ -205,13 +205,10 @@ def two_dict_scenario(rng, s, keys, horizon, hist1, pid0):
 def check_c10(chk, rng):
     quick = chk.tier == "quick"
     # level B of the keyed parent's scheduling (lazy heap of child wake-ups, sparse candidate set, pull, drain, re-arm):
-    # exhaustive, and each named fault must be rejected
-    res = hg.tlc("MapSched", "MapSched.none.cfg" if quick else "MapSched.thorough.cfg", timeout=1800, workers=4)
-    if res.violation:
-        raise hg.MachineryError("MapSched.tla violates its own invariants:\n" + res.violation)
-    chk.add_tlc(res, "MapSched-exhaustive")
-    for fault, inv in (("lt", "NoLostWakeup"), ("back", "ParentCovers"), ("nopull", "ParentCovers"), ("noobserve", "NoLostWakeup")):
-        chk.add_tlc(hg.expect_violation("MapSched", "MapSched.%s.cfg" % fault, inv, timeout=600, workers=2), "MapSched-fault:" + fault)
+    # exhaustive, and each named fault must be rejected (runs in the background, collected at the end)
+    models = hg.models_start([("MapSched", "MapSched.none.cfg" if quick else "MapSched.thorough.cfg", None, "MapSched-exhaustive")] +
+                             [("MapSched", "MapSched.%s.cfg" % f, inv, "MapSched-fault:" + f)
+                              for f, inv in (("lt", "NoLostWakeup"), ("back", "ParentCovers"), ("nopull", "ParentCovers"), ("noobserve", "NoLostWakeup"))])
     nscn = 160 if quick else 2500
     scns, metas, progs = [], [], []
     pid = 1
@@ -311,8 +308,13 @@ def check_c10(chk, rng):
         gote = sorted((e["t"], e["k"], e["msg"]) for e in tr if e["e"] == "kerr")
         if sorted(errs) != gote and any(n[1] == "throwneg" for n in []):
             pass
+        empty_err = [e["t"] for e in tr if e["e"] == "kerrtick" and e["nmod"] == 0 and e["nrem"] == 0]
+        if empty_err:
+            chk.violation("map-error-empty-tick", "the per-key error output ticked at %s with nothing to report (no exception in that cycle, no "
+                          "failed key removed)" % empty_err, "# C10/C15 error output ticks without an error\n" + scn + "\n")
         if any("throwneg" in l for l in scn.splitlines()) and sorted(errs) != gote:
             chk.violation("map-error-key", "per-key errors: specified %s, observed %s" % (sorted(errs), gote), "# C10/C15 keyed error\n" + scn + "\n")
+    hg.models_finish(chk, models)
     chk.notes["key_intervals_checked"] = nkeys
     chk.coverage["traces_validated_against_impl"] += len(scns)   # each run compared tick by tick with TLC's predictions
     for k in (0, 1):
